@@ -117,7 +117,8 @@ class Program:
         if tref.kind == "enum":
             ec = self.enum_cls(tref.enum)
             if rng.random() < 0.75 and tref.enum.values:
-                return ec(rng.choice(tref.enum.values)[1] if rng.choice(tref.enum.values)[1] < tref.limit else 0)
+                pick = rng.choice(tref.enum.values)[1]
+                return ec(pick if pick < tref.limit else 0)      # a declared ordinal may not fit an overriding type
             return ec(self.gen_int(rng, tref.limit))
         if tref.kind in ("string", "encoded_string"):
             enc_safe = safe
